@@ -87,10 +87,52 @@ static void print_path_separator_if_needed(XmlMemo *memo, int *more_segments) {
     }
 }
 
+static char *concat(char *head, const char *tail);
+
+/* Appends text as attribute content: the characters XML gives a meaning
+   are replaced by their entities, the control characters XML cannot carry
+   are shown as \xNN */
+static char *concat_escaped(char *head, const char *text) {
+    char single_char[5];
+
+    for (; *text != '\0'; text++) {
+        switch (*text) {
+            case '"':
+                head = concat(head, "&quot;");
+                break;
+            case '&':
+                head = concat(head, "&amp;");
+                break;
+            case '<':
+                head = concat(head, "&lt;");
+                break;
+            case '>':
+                head = concat(head, "&gt;");
+                break;
+            case '\'':
+                head = concat(head, "&apos;");
+                break;
+            default:
+                if ((unsigned char)*text < 0x20 && *text != '\t' && *text != '\n' && *text != '\r')
+                    snprintf(single_char, sizeof(single_char), "\\x%02x", (unsigned char)*text);
+                else
+                    snprintf(single_char, sizeof(single_char), "%c", *text);
+                head = concat(head, single_char);
+        }
+    }
+    return head;
+}
+
+static char *escaped(const char *text) {
+    return concat_escaped(strdup(""), text);
+}
+
 static void print_path_segment_walker(const char *segment, void *void_memo) {
     XmlMemo *memo = (XmlMemo *)void_memo;
+    char *escaped_segment = escaped(segment);
 
-    memo->printer(file_stack[file_stack_p-1], "%s", segment);
+    memo->printer(file_stack[file_stack_p-1], "%s", escaped_segment);
+    free(escaped_segment);
     print_path_separator_if_needed(memo, &memo->segment_count);
 }
 
@@ -117,6 +159,7 @@ static void xml_reporter_start_suite(TestReporter *reporter, const char *suitena
     int segment_decrementer = reporter->breadcrumb->depth;
     XmlMemo *memo = (XmlMemo *)reporter->memo;
     FILE *out;
+    char *escaped_suite_path;
 
     (void)count;                /* UNUSED */
 
@@ -145,7 +188,9 @@ static void xml_reporter_start_suite(TestReporter *reporter, const char *suitena
     file_stack[file_stack_p++] = out;
     memo->printer(out, "<?xml version=\"1.0\" encoding=\"ISO-8859-1\" ?>\n");
     memo->printer(out, indent(reporter));
-    memo->printer(out, "<testsuite name=\"%s\">\n", suite_path);
+    escaped_suite_path = escaped(suite_path);
+    memo->printer(out, "<testsuite name=\"%s\">\n", escaped_suite_path);
+    free(escaped_suite_path);
     reporter_start_suite(reporter, suitename, 0);
 }
 
@@ -161,6 +206,7 @@ static FILE *child_output_tmpfile;
 static void xml_reporter_start_test(TestReporter *reporter, const char *testname) {
     XmlMemo *memo = (XmlMemo *)reporter->memo;
     FILE *out = file_stack[file_stack_p-1];
+    char *escaped_testname;
 
     memo->printer(out, indent(reporter));
     memo->printer(out, "<testcase classname=\"");
@@ -169,7 +215,9 @@ static void xml_reporter_start_test(TestReporter *reporter, const char *testname
 
     // Don't terminate the XML-node now so that we can add the duration later
     // But then we need to accumulate subsequent output to report later
-    memo->printer(out, "\" name=\"%s\"", testname);
+    escaped_testname = escaped(testname);
+    memo->printer(out, "\" name=\"%s\"", escaped_testname);
+    free(escaped_testname);
     reporter_start_test(reporter, testname);
     output = strdup("");
 
@@ -199,31 +247,7 @@ static void xml_concat_escaped_message(const char *message, va_list arguments) {
     char buffer[1000];
     vsnprintf(buffer, sizeof(buffer)/sizeof(buffer[0]), message, arguments);
 
-    size_t current_char_position = 0;
-    for (; current_char_position < strlen(buffer); current_char_position++) {
-        switch (buffer[current_char_position]) {
-            case '"':
-                output = concat(output, "&quot;");
-                break;
-            case '&':
-                output = concat(output, "&amp;");
-                break;
-            case '<':
-                output = concat(output, "&lt;");
-                break;
-            case '>':
-                output = concat(output, "&gt;");
-                break;
-            case '\'':
-                output = concat(output, "&apos;");
-                break;
-            default: {
-                char single_char[2] = {0};
-                single_char[0] = buffer[current_char_position];
-                output = concat(output, single_char);
-            }
-        }
-    }
+    output = concat_escaped(output, buffer);
 }
 
 static void xml_show_fail(TestReporter *reporter, const char *file, int line, const char *message, va_list arguments) {
@@ -236,8 +260,9 @@ static void xml_show_fail(TestReporter *reporter, const char *file, int line, co
     output = concat(output, "\">\n");
     output = concat(output, indent(reporter));
 
-    snprintf(buffer, sizeof(buffer)/sizeof(buffer[0]),
-             "\t<location file=\"%s\" line=\"%d\"/>\n", file, line);
+    output = concat(output, "\t<location file=\"");
+    output = concat_escaped(output, file);
+    snprintf(buffer, sizeof(buffer)/sizeof(buffer[0]), "\" line=\"%d\"/>\n", line);
     output = concat(output, buffer);
     output = concat(output, indent(reporter));
     output = concat(output, "</failure>\n");
@@ -258,7 +283,9 @@ static void xml_show_incomplete(TestReporter *reporter, const char *filename, in
     output = concat(output, buffer);
     output = concat(output, "\">\n");
     output = concat(output, indent(reporter));
-    snprintf(buffer, sizeof(buffer)/sizeof(buffer[0]),"\t<location file=\"%s\" line=\"%d\"/>\n", filename, line);
+    output = concat(output, "\t<location file=\"");
+    output = concat_escaped(output, filename);
+    snprintf(buffer, sizeof(buffer)/sizeof(buffer[0]), "\" line=\"%d\"/>\n", line);
     output = concat(output, buffer);
     output = concat(output, indent(reporter));
     output = concat(output, "</error>\n");
